@@ -43,7 +43,7 @@ pvars == <<cfg, clk, now, pctx, prt, epoch, inst, calls, snapw, chs, credit, cre
            ctxTouch, status, cbseen, boReset, boStop, rootdead, td, bad>>
 
 PInitCfg(variant, retry) ==
-    /\ cfg = [variant |-> variant, retry |-> retry, burst |-> FALSE] /\ clk = 0 /\ now = 0 /\ pctx = 0 /\ prt = 0 /\ epoch = 0
+    /\ cfg = [variant |-> variant, retry |-> retry, burst |-> FALSE, stub |-> TRUE, ld |-> 7] /\ clk = 0 /\ now = 0 /\ pctx = 0 /\ prt = 0 /\ epoch = 0
     /\ inst = <<>> /\ calls = <<>> /\ snapw = <<>> /\ chs = <<>>
     /\ credit = 0 /\ creditR = 0 /\ needEnter = 0 /\ ctxTouch = 0 /\ status = 0 /\ cbseen = {} /\ boReset = 0 /\ boStop = 0 /\ rootdead = {}
     /\ td = FALSE /\ bad = {}
@@ -51,7 +51,7 @@ PInitCfg(variant, retry) ==
 PInit == PInitCfg("plain", FALSE)
 
 PResetCfg(variant, retry) ==
-    /\ cfg' = [variant |-> variant, retry |-> retry, burst |-> FALSE] /\ clk' = 0 /\ now' = 0 /\ pctx' = 0 /\ prt' = 0 /\ epoch' = 0
+    /\ cfg' = [variant |-> variant, retry |-> retry, burst |-> FALSE, stub |-> TRUE, ld |-> 7] /\ clk' = 0 /\ now' = 0 /\ pctx' = 0 /\ prt' = 0 /\ epoch' = 0
     /\ inst' = <<>> /\ calls' = <<>> /\ snapw' = <<>> /\ chs' = <<>>
     /\ credit' = 0 /\ creditR' = 0 /\ needEnter' = 0 /\ ctxTouch' = 0 /\ status' = 0 /\ cbseen' = {} /\ boReset' = 0 /\ boStop' = 0 /\ rootdead' = {}
     /\ td' = FALSE /\ bad' = {}
@@ -92,7 +92,7 @@ PendingRerun(withCtx) ==
         (calls[id].op \in {"setroutine", "setstate", "setsr", "restart"} \/ (withCtx /\ calls[id].op = "setctx" /\ calls[id].r))
 
 \* A backoff retry is due "now": some run of this routine/state returned an error and its backoff
-\* interval (10) ended within the last advance of the clock (7).  While a fired timer's callback
+\* interval (10) ended within the last advance of the clock (cfg.ld: 7, or 20 minutes).  While a fired timer's callback
 \* is pending no further time passes, so every entry caused by a retry timer satisfies this.
 \* This also accepts the code's stale-timer behaviour (O5 in DESIGN.md: a timer that fired but
 \* whose callback was overtaken by a RestartRoutine still restarts the routine once the restarted
@@ -101,11 +101,19 @@ PendingRerun(withCtx) ==
 \* some recorded run of this routine/state returned an error at least one backoff interval ago: a
 \* later entry is attributable to the backoff retry even if it was deferred (e.g. the retry fired,
 \* ClearContext cancelled the restarted instance before it entered, a later SetContext ran it)
+\* The retry timer armed when run j returned its error was certainly stopped before it could fire:
+\* a call that (by its result) stopped or replaced the routine was issued after j returned and
+\* before j's backoff deadline.  (A call issued at or after the deadline only overtakes the fired
+\* timer's callback: O5.)  Entries after that are not attributable to j's retry.
+Stopped(j) == \E id \in DOMAIN calls : calls[id].done /\ calls[id].sup /\ calls[id].cclk > inst[j].lclk
+                                        /\ calls[id].t < inst[j].ltime + 10
+
 BackoffElapsed(key) == \E j \in Insts : inst[j].key = key /\ ~inst[j].act /\ inst[j].out = "err" /\ now >= inst[j].ltime + 10
+                                        /\ ~Stopped(j)
 
 RetryDueNow(key) ==
     \E j \in Insts : inst[j].key = key /\ ~inst[j].act /\ inst[j].out = "err"
-                      /\ now - 7 < inst[j].ltime + 10 /\ inst[j].ltime + 10 <= now
+                      /\ now - cfg.ld < inst[j].ltime + 10 /\ inst[j].ltime + 10 <= now /\ ~Stopped(j)
 
 Tick == clk' = clk + 1
 
@@ -116,10 +124,15 @@ ErrName(i) == IF inst[i].out = "ok" THEN "nil" ELSE IF inst[i].out = "err" THEN 
 
 \* burst: the clients ran freely in parallel (mode M2): the order of the logged returns is not
 \* the order of the critical sections, so only order-insensitive conditions are judged
-PConfig(variant, retry, burst) ==
-    /\ cfg' = [variant |-> variant, retry |-> retry, burst |-> burst]
+\* stub: the backoff is the harness's scripted one (interval 10, its Reset / NextBackOff calls are
+\* logged as "bo" events); otherwise it is the library's own backoff.Backoff.Construct() of a
+\* configuration that means "10 ms, forever" -- then only its effect (the retries) is observable.
+PConfigBo(variant, retry, burst, stub) ==
+    /\ cfg' = [variant |-> variant, retry |-> retry, burst |-> burst, stub |-> stub, ld |-> 7]
     /\ Tick
     /\ UNCHANGED <<now, pctx, prt, epoch, inst, calls, snapw, chs, credit, creditR, needEnter, ctxTouch, status, cbseen, boReset, boStop, rootdead, td, bad>>
+
+PConfig(variant, retry, burst) == PConfigBo(variant, retry, burst, TRUE)
 
 \* e: the call event record
 PCall(e) ==
@@ -129,7 +142,7 @@ PCall(e) ==
                 r |-> IF e.op \in {"setctx", "clearctx"} THEN e.r ELSE FALSE,
                 c |-> IF e.op \in {"setctx", "clearctx"} THEN e.c ELSE 0,
                 k |-> IF e.op = "setroutine" THEN e.f ELSE IF e.op = "setstate" THEN e.s ELSE 0,
-                canc |-> FALSE, cclk |-> clk + 1,
+                canc |-> FALSE, cclk |-> clk + 1, t |-> now, sup |-> FALSE,
                 nilok |-> IF w THEN NilOK(e.rin, EffCtx, prt, status) ELSE FALSE,
                 errok |-> IF w THEN ErrOK(EffCtx, prt, status) ELSE {},
                 done |-> FALSE]
@@ -189,7 +202,7 @@ PRet(e) ==
     /\ snapw' = IF sup THEN (c.actor :> c.pre) @@ snapw ELSE snapw
     \* earlier instances: those that had entered the function when the call was issued
     /\ chs' = IF chid # 0 THEN (chid :> (c.pre \cap Active)) @@ chs ELSE chs
-    /\ calls' = Refresh([calls EXCEPT ![e.id].done = TRUE], IF pctx2 \in rootdead THEN 0 ELSE pctx2, prt2, status2)
+    /\ calls' = Refresh([calls EXCEPT ![e.id].done = TRUE, ![e.id].sup = sup], IF pctx2 \in rootdead THEN 0 ELSE pctx2, prt2, status2)
     /\ Tick
     /\ bad' = bad \cup (IF calls[e.id].done THEN {"Harness"} ELSE {})
     /\ UNCHANGED <<cfg, now, inst, ctxTouch, cbseen, boReset, boStop, rootdead, td>>
@@ -271,8 +284,9 @@ PCancel(id) ==
 
 PTick(d) ==
     /\ now' = now + d
+    /\ cfg' = [cfg EXCEPT !.ld = d]
     /\ Tick
-    /\ UNCHANGED <<cfg, pctx, prt, epoch, inst, calls, snapw, chs, credit, creditR, needEnter, ctxTouch, status, cbseen, boReset, boStop, rootdead, td, bad>>
+    /\ UNCHANGED <<pctx, prt, epoch, inst, calls, snapw, chs, credit, creditR, needEnter, ctxTouch, status, cbseen, boReset, boStop, rootdead, td, bad>>
 
 PBo(op) ==
     /\ boReset' = IF op = "reset" THEN clk + 1 ELSE boReset
@@ -317,7 +331,7 @@ QuietBad(live, active, blk, gstate) ==
     \cup (IF cfg.retry /\ curLeft /\ inst[L].out = "err" /\ active = {} /\ EffCtx # 0 /\ prt # 0
               /\ untouched /\ now >= inst[L].ltime + 13 /\ boStop < inst[L].lclk
           THEN {"RetryLost"} ELSE {})
-    \cup (IF cfg.retry /\ curLeft /\ inst[L].out = "ok" /\ untouched /\ boReset < inst[L].lclk THEN {"BackoffNotReset"} ELSE {})
+    \cup (IF cfg.retry /\ cfg.stub /\ curLeft /\ inst[L].out = "ok" /\ untouched /\ boReset < inst[L].lclk THEN {"BackoffNotReset"} ELSE {})
     \cup (IF \E id \in blk : id \in DOMAIN calls /\ calls[id].op = "waitexited"
                  \* (a context cancelled by the client is noticed lazily: the waiter is only woken by
                  \* the exit bookkeeping of the instance, so it may stay blocked while one is inside)
